@@ -31,7 +31,9 @@ IMPORT_PROJECTS = [
     # objects whose repr() is no code and is built from the repr() of their parts (as docs/customize_repr.md recommends): Enum members, types, sets, nested objects
     'from enum import Enum\nfrom inline_snapshot import snapshot\n\n\nclass State(Enum):\n    DONE = 1\n\n\nclass Job:\n    def __init__(self, name, state, kinds):\n        self.name, self.state, self.kinds = name, state, kinds\n\n'
     '    def __repr__(self):\n        return f"<Job {self.name} {repr(self.state)} {repr(self.kinds)} {repr(int)}>"\n\n    def __eq__(self, other):\n        if not isinstance(other, Job):\n            return NotImplemented\n        return (self.name, self.state, self.kinds) == (other.name, other.state, other.kinds)\n\n\n'
-    'def test_a():\n    assert Job("build", State.DONE, {"a", "b"}) == snapshot()\n\n\ndef test_b():\n    assert [Job("x", State.DONE, set()), 1] == snapshot()\n',
+    'def test_a():\n    assert Job("build", State.DONE, {"a", "b"}) == snapshot()\n\n\ndef test_b():\n    assert [Job("x", State.DONE, set()), 1] == snapshot()\n',    # attrs classes with private attributes (`_x` is initialised with `x`) and an explicit alias
+    'import attrs\nfrom inline_snapshot import snapshot\n\n\n@attrs.define\nclass PA:\n    _x: int\n    y: int = 0\n    _hidden: list = attrs.field(factory=list)\n    z: int = attrs.field(default=1, alias="zed")\n\n\n'
+    'def test_a():\n    assert PA(1, 2, ["h"], 5) == snapshot()\n\n\ndef test_b():\n    assert [PA(3)] == snapshot()\n',
 ]
 
 
